@@ -7,10 +7,13 @@ STATEFUL_ASSUMPTIONS = [
     "block times are strictly increasing and after 1970",
 ]
 GEN = ("rapid state machine: a generated valid genesis (fees, allowlist, allowed denoms, fee rates, bridge chains, sequences near the padded width) then a history of "
-       "state-aware steps drawn from a weighted profile over all message types, blocks (1 ns .. years, landing on expirations), restarts and faucet steps; ")
+       "state-aware steps drawn from a weighted profile over all message types, blocks (1 ns .. years, landing on expirations), restarts, faucet steps, "
+       "speculative steps (1-3 generated messages executed on a branch that is discarded, as a simulation or rolled-back tx does) and once-per-history macro steps "
+       "(>100 batches in a basket, >100 / >240 orders of one seller, >100 attestations by one attestor, >10 holders of a batch); values include near-miss identifiers, "
+       "re-spelled amounts, amounts beyond 34 digits; some configurations have a populated genesis (>100 classes/projects/issuers) or a vesting account; ")
 DIST = " Distinct = distinct (step kind, accepted?) sequences."
 
-def stateful(test, rule, quick=4000, thorough=160000, qsteps=40, tsteps=70, extra=None, qtimeout=900):
+def stateful(test, rule, quick=4000, thorough=100000, qsteps=40, tsteps=70, extra=None, qtimeout=900):
     d = {
         "test": test, "rule": GEN + rule + DIST, "assumptions": list(STATEFUL_ASSUMPTIONS),
         "quick": {"checks": quick, "steps": qsteps, "shards": 8, "timeout": qtimeout, "shrink": "15s"},
@@ -69,9 +72,9 @@ CHECKS = {
         "custom step 'roundtrip' (and always at the end): ExportGenesis of ecocredit+data (+auth,bank) -> each module's ValidateGenesis -> InitGenesis into an empty chain -> re-export byte-identical after JSON canonicalisation -> registered invariants hold on the imported chain. "
         "Non-trivial = a round trip over a state with rows in >=10 tables.", quick=2400),
     "C10": stateful("TestC10",
-        "differential: each generated trace is executed 6 times in-process (as generated, again, with restarts at all / none / the complementary set of block boundaries, and with the failed messages removed) and, in the thorough tier, once more in a second OS process; "
+        "differential: each generated trace is executed 6-7 times in-process (as generated, again, with restarts at all / none / the complementary set of block boundaries, with the failed messages removed, and with the speculative discarded-branch executions removed) and, in the thorough tier, once more in a second OS process; "
         "per-block app hash, per-message success flag, ABCI code, response bytes, event bytes and gas must be identical (block hashes only for the failed-messages-removed run). "
-        "Non-trivial = a restart strictly inside the history followed by >=5 accepted messages, with data-module messages accepted.", quick=800, thorough=30000),
+        "Non-trivial = a restart strictly inside the history followed by >=5 accepted messages, with data-module messages accepted.", quick=800, thorough=20000),
     "C11": stateful("TestC11",
         "Put: accepted <=> reference admission rule (basket exists, class listed, type matches, start date >= criterion computed with exact calendar arithmetic at block time, amount positive within precision, cumulative owner balance) - both directions; "
         "Take: auto-retire honoured, delivered retired iff retire applies, response sums to amount/10^p, every entry but the last drains its batch, start dates non-decreasing, no untouched older batch, post-state balances match. "
@@ -80,7 +83,7 @@ CHECKS = {
         "at every BeginBlock(T): no panic; no order with expiration <= T survives; every removed order was expired and its quantity moved escrow->tradable per (seller,batch); all other orders and balance rows identical; no other table changes; no accepted BuyDirect of an expired order. "
         "Non-trivial = a block removing >=2 orders of one seller/batch or an order whose expiration equals T."),
     "C13": stateful("TestC13",
-        "ghost set of (class, origin id, source) fed by accepted CreateBatch/Mint/BridgeReceive: a second acceptance is a violation and the index never loses an entry; BridgeReceive only from allowed (lower-cased) sources; (class,contract)->batch is a function that never changes and later receipts mint into that batch; "
+        "ghost set of (class, origin id, source) fed by accepted CreateBatch/Mint/BridgeReceive: a second acceptance is a violation and the index never loses an entry; BridgeReceive only from allowed (lower-cased) sources; (class,contract)->batch is a ghost function built from accepted CreateBatch/BridgeReceive messages that must equal the stored table in both directions, and later receipts mint into that batch; "
         "Bridge only to allowed targets and bound batches, cancels exactly the amounts and every EventBridge carries the batch's contract, amount, owner, recipient, target. "
         "Non-trivial = a replay attempted through a different entry point than the original AND an accepted Bridge."),
     "C14": stateful("TestC14|TestC14Pure",
@@ -97,10 +100,10 @@ CHECKS = {
     "C16": stateful("TestC16",
         "configurations: production hasher, MinLength 1/2/8, and weak hashes with k in {1,2,3,16} distinct outputs (incl. repeated-byte outputs) injected through the verif build-tag hook; histories of Anchor/Attest/DefineResolver/RegisterResolver over a pool of 14 content hashes. "
         "After every step: DataID is a growing bijection id<->iri that never changes, anchor timestamp == block time of first anchoring forever, attestations written once, resolver rows and registrations never lost or changed, responses return stored iri/timestamp, only managers register to private resolvers. "
-        "Non-trivial = >=3 IRIs share a probe prefix AND an IRI is re-anchored in a later block.", quick=4800, thorough=200000),
+        "Non-trivial = >=3 IRIs share a probe prefix AND an IRI is re-anchored in a later block.", quick=4800, thorough=120000),
     "C17": stateful("TestC17",
         "custom steps 'query' and 'get': 27 list queries (filter argument present / absent / prefix-of-present; page sizes 1,2,3,5,n-1,n,n+1,1000; forward and reverse) walked by key and by offset through the real GRPCQueryRouter and compared as multisets and as sequences with a brute-force filter over the snapshot, "
-        "totals checked on count_total requests; 11 single-entity queries compared with the stored rows. Genesis may contain prefix-colliding ids (C10/C100, C10-100/C10-1000). "
+        "totals checked on count_total requests, requests without a page or with an unset limit checked against the default page of 100; 11 single-entity queries compared with the stored rows. Genesis may contain prefix-colliding ids (C10/C100, C10-100/C10-1000). "
         "Non-trivial = a multi-page walk of a filtered query whose argument is a string prefix of (or prefixed by) another present argument.", qsteps=50),
     "C18": stateful("TestC18",
         "configurations = genesis values accepted by ValidateGenesis and governance messages accepted by their validators over boundary sets (fee unset/0/1/typical/>funds; rates '', 0, 0.0, tiny, 1, >1, 34+ digits; allowlist; allowed denoms). At genesis and after every accepted configuration change, canary operations whose own preconditions the harness establishes "
@@ -114,7 +117,7 @@ CHECKS = {
         fuzz=[{"target": "FuzzC19", "time": "300s"}]),
     "C20": pure("TestC20",
         "owners (20/32-byte, lower and upper case bech32), connection ids, inner messages of six registered types with arbitrary field contents, block times, and the four channel/capability combinations (with decoy channels and capabilities for other owners/connections); the outer message is marshalled, unmarshalled and UnpackInterfaces'd before the call; "
-        "hand-written recording fakes check the exact lookups, exactly one SendTx iff both exist with that capability/connection/port, EXECUTE_TX, empty memo, timeout == block time + 60 s, and packet data that decodes to exactly one message byte-identical to the supplied one. "
+        "hand-written recording fakes check the exact lookups, exactly one SendTx iff both exist with that capability/connection/port, EXECUTE_TX, empty memo, timeout == block time + 60 s, and packet data that decodes to exactly one message byte-identical to the supplied one; sequences of 1-4 submissions on one keeper; injected SendTx failures (10 error kinds) must surface as a failed SubmitTx. "
         "Non-trivial = both lookups succeed and the inner message has non-default fields; distinct = distinct cases.",
         40000, 10000000, ["the ICA controller and capability keepers are hand-written fakes"]),
 }
